@@ -141,8 +141,12 @@ META = {
                  "connection-ID authentication matrix equals RFC 9000 7.3. Tie: every parameter's id, default, validator operator and constant "
                  "is re-extracted from the Rust source AND the RFC table is re-extracted from the offline RFC text, both with bridge lemmas; the "
                  "Lean driver is run against the real Client/ServerTransportParameters decoders on blocks with every parameter at, inside and "
-                 "outside each bound, all small subsets/orders/duplications, unknown ids, both roles."),
-        "note": ("Trusted: Lean kernel (standard axioms), tools/extract.py, vh-core harness, python RFC oracle. The end-to-end application of the "
+                 "outside each bound, all small subsets/orders/duplications, unknown ids, both roles. The connection-ID authentication "
+                 "(session_context.rs, private to the crate) is tied end to end: real client/server handshakes in which one endpoint's DECLARED "
+                 "block is rewritten inside the TLS provider (88 mutation cases with and without Retry); the handshake facts and the blocks are read "
+                 "from the wire, the Lean model (tp-auth driver; theorems tp_block_auth_iff(_rfc), tp_block_reject_code) must take the validator's "
+                 "decision, and RFC 9000 7.3 is the verdict."),
+        "note": ("Trusted: Lean kernel (standard axioms), tools/extract.py, vh-core / vh-e2e harnesses, python RFC oracle. The end-to-end application of the "
                  "limits is observed through C03/C04 traces (declared parameters are parsed from the TLS messages); TLS extension carriage is not modelled."),
         "technique": "Lean 4 theorem proving (decoder ⇔ RFC table) + regenerated-table bridges (code and RFC text) + differential correspondence",
     },
@@ -154,7 +158,12 @@ META = {
                  "older generation, and both peers keep decrypting genuine packets of the current/next/previous generation. The last two are "
                  "proved for the repaired code and refuted by concrete counterexamples for the two pre-fix variants. Tie: limits, window and "
                  "comparison operators re-extracted with bridge lemmas, including which repair guards the source carries; the Lean driver is run "
-                 "against the real KeySet with an instrumented generation-tagged key, as two endpoints with scripted channel, tiny limits."),
+                 "against the real KeySet with an instrumented generation-tagged key, as two endpoints with scripted channel, tiny limits. "
+                 "The assumption that real keys form a proper chain (generation n opens exactly what generation n sealed, at both endpoints, "
+                 "whatever TLS provider) is a named hypothesis (ChainOK; conf_limit_per_physical_key, observed_table_establishes_chain) tied by "
+                 "harness vh-tls: in-memory handshakes for every s2n-tls x rustls role pair and cipher suite, both chains walked with the real "
+                 "derive_next_key, open/reject tables replayed through the Lean checker, ciphertexts and header-protection masks compared byte "
+                 "for byte with a pure-python RFC 9001 reference (self-tested on RFC 9001 A.1/A.3/A.5, FIPS 197, GCM and RFC 8439 vectors)."),
         "note": ("Trusted: Lean kernel (standard axioms), tools/extract.py, vh-core harness, python oracle. AEAD, HKDF and header protection are "
                  "assumed ideal; live connections with a tiny key-update window (hook h2) are not exercised."),
         "technique": "Lean 4 invariant proofs over the key-update state machine (two endpoints + adversarial channel) + regenerated-constant bridges + differential correspondence",
